@@ -12,13 +12,13 @@
      begins at or after the end of the first line of the message, the last ends at or before the body;
    * for every header whose value is parsed generically, and for From / To, the value is empty or
      begins after the end of the name (inside the line, after the colon).
-   * (LowerBound.v) also for Call-ID, CSeq, Content-Length and Expires parsed into PHdrVals the value is
-     empty or begins after the end of the name: lower-bound invariants of the three leaf parsers carried
-     through header line, header block and message; with the previous item, for every stored header
-     except Contact / P-Asserted-Identity (C05_values_after_names; any way of feeding the message:
-     C05_values_after_names_fed, by C01).
-   PARTIAL: for Contact and P-Asserted-Identity parsed into a PHdrVals only the upper bound of the
-   header-value span is proved (not that it starts after the name);
+   * (LowerBound.v, LowerLists.v) also for Call-ID, CSeq, Content-Length, Expires, Contact and
+     P-Asserted-Identity parsed into PHdrVals the value (for the two lists: the span from the first to the
+     last value of the header) is empty or begins after the end of the name: lower-bound invariants of
+     the leaf parsers and of the two list loops carried through header line, header block and message;
+     with the previous item: for every stored header of every message (C05_values_after_names; any way
+     of feeding the message: C05_values_after_names_fed, by C01).
+   PARTIAL:
    the nesting of sub-fields (display name / URI / parameters / tag inside the value; CSeq number and
    method inside the CSeq value) is proved only for texts of the documented shapes (C07 / C09 / C10
    specs give the exact extents there), otherwise: the structural oracle of the C05 driver.
@@ -136,18 +136,17 @@ Theorem C05_trimmed_means : forall buf v, trimmed buf v <->
 Proof. intros. reflexivity. Qed.
 Theorem C05_values_after_names : forall flags buf offs L nh nc o m', offs <= nnat (length buf) ->
   parse_sipmsg flags buf offs (msg_init L (repeat hdr0 nh) (repeat pfrom0 nc)) = Done o EOk m' ->
-  Forall (fun h => h_type h = HdrContact \/ h_type h = HdrPAI \/ pl (h_val h) = 0 \/ pf_end (h_name h) < po (h_val h))
-         (stored (hs_l (m_hs m'))).
+  Forall (fun h => pl (h_val h) = 0 \/ pf_end (h_name h) < po (h_val h)) (stored (hs_l (m_hs m'))).
 Proof. exact message_values_after_names. Qed.
-(* the part that is new with LowerBound.v, for any way of feeding the message and also when Content-Length is missing *)
-Theorem C05_values_after_names_fed : forall flags B offs bl n cv o s o' e m', testbit flags bSIPMsgNoMoreData = false -> offs <= nnat (length B) ->
-  feeds flags B offs (msg_init bl (repeat hdr0 n) cv) o s ->
+(* every kind but From / To (those: the layout invariant), for any way of feeding the message and also when Content-Length is missing *)
+Theorem C05_values_after_names_fed : forall flags B offs bl n nc o s o' e m', testbit flags bSIPMsgNoMoreData = false -> offs <= nnat (length B) ->
+  feeds flags B offs (msg_init bl (repeat hdr0 n) (repeat pfrom0 nc)) o s ->
   parse_sipmsg flags B o s = Done o' e m' -> m_state m' = MFIN \/ m_state m' = MNoCLen ->
   forall j, (j < N.to_nat (hl_n (hs_l (m_hs m'))))%nat -> (j < length (hl_hdrs (hs_l (m_hs m'))))%nat ->
     let h := nth j (hl_hdrs (hs_l (m_hs m'))) hdr0 in
     special (h_type h) = true \/ pl (h_val h) = 0 \/ pf_end (h_name h) < po (h_val h).
 Proof. exact message_vbound_fed. Qed.
-Theorem C05_special_kinds : forall t, special t = true <-> t = HdrFrom \/ t = HdrTo \/ t = HdrContact \/ t = HdrPAI.
+Theorem C05_special_kinds : forall t, special t = true <-> t = HdrFrom \/ t = HdrTo.
 Proof. intros t. unfold special. rewrite !orb_true_iff, !N.eqb_eq. tauto. Qed.
 Print Assumptions C05_message.
 Print Assumptions C05_message_every_schedule.
